@@ -215,7 +215,7 @@ func runHandshake(cli, srv *gmtls.Conn, timeout time.Duration) hsResult {
 		defer wg.Done()
 		defer func() {
 			if p := recover(); p != nil {
-				res.srvPanic = p
+				res.srvPanic = fmt.Sprint(p, " @ ", string(debugStack()))
 				srv.Close()
 			}
 		}()
